@@ -234,6 +234,19 @@ def main():
     jobs.append(("version", None, {"source": "none", "tag_version": "1.2.3", "output_template": deep}))
     with ThreadPoolExecutor(max_workers=16) as ex:
         list(ex.map(lambda j: judge(*j), jobs))
+    # an explicit empty stdin is an empty pipe for the child, never the caller's own stdin: run these calls one at a time with
+    # the interpreter's fd 0 temporarily replaced by a pipe that holds a valid Zerv document of another version
+    other_doc = STDIN_DOC.replace("major:Some(4)", "major:Some(9)")
+    for sub in ["version", "flow"]:
+        for kw in [{"stdin": ""}, {"stdin": "", "source": "stdin"}, {"stdin": "", "output_format": "pep440"}, {"stdin": "   \n"}]:
+            r, w = os.pipe()
+            os.write(w, other_doc.encode()); os.close(w)
+            saved = os.dup(0)
+            os.dup2(r, 0); os.close(r)
+            try:
+                judge(sub, None, dict(kw))
+            finally:
+                os.dup2(saved, 0); os.close(saved)
     import stat, tempfile
     stub_dir = tempfile.mkdtemp(prefix="zvstub-", dir=os.path.dirname(out_path))
     for sig in ["KILL", "TERM", "ABRT", "SEGV"]:
